@@ -322,6 +322,18 @@ type formatVerb struct {
 	Width    int
 }
 
+// formatNumDigit is called by formatFSM (generated by format_fsm.rl) to append
+// a decimal digit to an argument index, width or precision being read from the
+// format string. Once the number is larger than any usable index, width or
+// precision it stops growing, so that a long digit string cannot overflow
+// into a small or negative number.
+func formatNumDigit(n int, digit byte) int {
+	if n > 1000000 {
+		return n
+	}
+	return (10 * n) + (int(digit) - '0')
+}
+
 // formatAppend is called by formatFSM (generated by format_fsm.rl) for each
 // formatting sequence that is encountered.
 func formatAppend(verb *formatVerb, buf *bytes.Buffer, args []cty.Value) error {
